@@ -168,7 +168,13 @@ impl Check for C07 {
                 let got = imp::compile(text, "x", false);
                 let case = Case::new(&scope_name, text, "x").api("compile");
                 if got.is_crash() {
-                    out.inc("inconclusive_crash");
+                    // neither accepted nor "rejected with Error::Syntax": a violation of the
+                    // acceptance property whenever the reference has a definite verdict
+                    match &v {
+                        Verdict::Unclear(_) => out.inc("inconclusive_crash"),
+                        Verdict::Valid(_) => out.fail("C07", &case, "CrashInsteadOfVerdict", "Ok (grammar-valid)", &got.show(), ""),
+                        Verdict::Invalid(why) => out.fail("C07", &case, "CrashInsteadOfVerdict", &format!("Err(Syntax): {}", why), &got.show(), ""),
+                    }
                     continue;
                 }
                 match (&v, &got) {
@@ -231,7 +237,13 @@ impl Check for C07 {
                 let got = imp::compile(text, "", false);
                 let case = Case::new(&scope_name, text, "").api("compile");
                 if got.is_crash() {
-                    out.inc("inconclusive_crash");
+                    // neither accepted nor "rejected with Error::Syntax": a violation of the
+                    // acceptance property whenever the reference has a definite verdict
+                    match &v {
+                        Verdict::Unclear(_) => out.inc("inconclusive_crash"),
+                        Verdict::Valid(_) => out.fail("C07", &case, "CrashInsteadOfVerdict", "Ok (grammar-valid)", &got.show(), ""),
+                        Verdict::Invalid(why) => out.fail("C07", &case, "CrashInsteadOfVerdict", &format!("Err(Syntax): {}", why), &got.show(), ""),
+                    }
                     continue;
                 }
                 match (&v, &got) {
@@ -302,7 +314,13 @@ impl Check for C07 {
                 let got = imp::compile(text, flags, false);
                 let case = Case::new(&scope_name, text, flags).api("compile");
                 if got.is_crash() {
-                    out.inc("inconclusive_crash");
+                    // neither accepted nor "rejected with Error::Syntax": a violation of the
+                    // acceptance property whenever the reference has a definite verdict
+                    match &v {
+                        Verdict::Unclear(_) => out.inc("inconclusive_crash"),
+                        Verdict::Valid(_) => out.fail("C07", &case, "CrashInsteadOfVerdict", "Ok (grammar-valid)", &got.show(), ""),
+                        Verdict::Invalid(why) => out.fail("C07", &case, "CrashInsteadOfVerdict", &format!("Err(Syntax): {}", why), &got.show(), ""),
+                    }
                     continue;
                 }
                 match (&v, &got) {
